@@ -371,7 +371,7 @@ def _main(pid, tier, replay_path, nproc, seed, t0):
         env["VERIF_BUDGET_S"] = "15" if tier == "quick" else "300"
         opt_proc = subprocess.Popen([sys.executable, "-O", "-B", "-m", "mc.runner", pid, "--tier", tier,
                                      "--jobs", "3"], cwd=VERIF, env=env, stdout=subprocess.PIPE,
-                                    stderr=subprocess.PIPE, text=True)
+                                    stderr=subprocess.PIPE, text=True, start_new_session=True)
     if nproc > 1 and n_shards > 1:
         ctx = mp.get_context("fork")
         pool = ctx.Pool(min(nproc, n_shards))
@@ -428,13 +428,27 @@ def _main(pid, tier, replay_path, nproc, seed, t0):
     # ---- collect the `python -O` sub-run (started before the main exploration) ----
     opt_info = None
     if opt_proc is not None:
+        import subprocess as _sp
         try:
-            out, err = opt_proc.communicate(timeout=1800)
+            out, err = opt_proc.communicate(timeout=240 if tier == "quick" else 3600)
             line = [l for l in out.splitlines() if l.startswith("SUBRESULT ")]
             if line:
                 opt_info = json.loads(line[-1][len("SUBRESULT "):])
             else:
                 harness_errors.append("python -O sub-run produced no result: %s" % (out + err)[-800:])
+        except _sp.TimeoutExpired:
+            # the slice run under `python -O` did not come back in time (a busy machine, or code under
+            # test that makes an exploration very long): it is abandoned and reported as not covered
+            try:
+                import signal as _sig
+                os.killpg(opt_proc.pid, _sig.SIGKILL)      # the child and its worker processes
+            except Exception:
+                opt_proc.kill()
+            try:
+                opt_proc.communicate(timeout=10)
+            except Exception:
+                pass
+            total.count("python_O_subrun_abandoned")
         except Exception as ex:
             harness_errors.append("python -O sub-run failed: %r" % (ex,))
         if opt_info:
